@@ -2,6 +2,7 @@
 package main
 
 import (
+	"os"
 	"time"
 
 	"github.com/superfly/litefs/verifharness/core"
@@ -14,10 +15,15 @@ func main() {
 	rep.Rule = "(1) control scripts of Replication.tla in which a node leaves the primary's history (former primary with unreplicated writes, fork at equal TXID, node ahead, node behind a retention cut, node holding only a snapshot, empty node; all orders of primary change and reconnect within the bounds) executed on a real 3-node cluster; (2) offered files: transaction files with wrong min TXID, wrong pre-checksum, duplicate, truncated or corrupt body fed to a replica through a harness-controlled stream and to a primary's /tx endpoint; a case = (script or offered file, concretisation); non-trivial = a position change was observed on a non-primary node / the file was processed"
 	rep.Assumptions = []string{"3 nodes, one database", "CRC64 collisions ignored"}
 	defer core.Cleanup()
+	if os.Getenv("C06_DIRECTED") == "cleanup" { // development aid (never commit its evidence)
+		snapshotCleanupFails(rep)
+		rep.Finish()
+	}
 	repl.Main(rep, args, map[string]bool{"C06": true, "C09": true, "C01": true}, []repl.Stage{
 		{Name: "repl-forks-2n-3tx-2faults", Cfg: "MC_Repl_fork2.cfg", Timeout: 10 * time.Minute, MaxKeep: 0, Forks: true},
 		{Name: core.Pick(args, "repl-3n-2tx-2faults", "repl-3n-3tx-2faults"), Cfg: core.Pick(args, "MC_Repl_quick.cfg", "MC_Repl_fork.cfg"), Timeout: 15 * time.Minute, MaxKeep: core.Pick(args, 40, 500), Need: "Demote"},
 	})
 	repl.OfferedFiles(rep, args)
+	snapshotCleanupFails(rep)
 	rep.Finish()
 }
